@@ -293,6 +293,39 @@ class FaultFamily(Family):
         return u
 
 
+class StreamsExcFamily(ScenarioFamily):
+    """C12's multiplexed HTTP/2 workload (server resets of single streams, SETTINGS
+    changes, PING, early closes, one caller cancelled) judged by the exception oracle:
+    whatever reaches a caller is a documented exception."""
+
+    chunk = 30
+
+    def __init__(self, name, nq, nt):
+        super().__init__("C15", name, nq, nt)
+
+    def generate(self, seed, index, tier):
+        from .c12 import StreamsFamily
+
+        scn = StreamsFamily("x", "asyncio", 0, 0).generate(seed, index, tier)
+        scn["c15"] = {"stage": "h2-events"}
+        return scn
+
+    def post(self, res, scn):
+        if res.error:
+            return          # hangs under SETTINGS changes are C12's findings
+        w = res.world
+        for key, out in sorted(res.outcomes.items()):
+            for rec in (out, out.get("close_exc")):
+                if rec and "exc" in rec and not rec.get("documented"):
+                    top = (rec.get("mod") or "").split(".")[0]
+                    w.violate("C15", "undocumented:%s.%s@h2-events" % (top, rec["exc"]),
+                              {"msg": rec.get("msg"), "key": key})
+                    return
+
+    def nontrivial(self, res, scn):
+        return True
+
+
 class CallerErrorFamily(ScenarioFamily):
     """Invalid requests from the caller give LocalProtocolError (HTTP/1.1; the HTTP/2 path
     does not validate, KF-C03-2)."""
@@ -376,5 +409,6 @@ register("C15", {
     FaultFamily("native-exceptions-async-L2", "asyncio", 33, 330, seam="L2"),
     FaultFamily("native-exceptions-threads-L2", "threads", 22, 220, seam="L2"),
     FaultFamily("native-exceptions-trio-L2", "trio", 22, 220, seam="L2"),
+    StreamsExcFamily("h2-events-async", 1200, 24000),
     CallerErrorFamily("C15", "caller-errors-async", 600, 6000),
     ProxyReplyFamily("C15", "proxy-replies-async", 1500, 30000)])
